@@ -252,6 +252,10 @@ class GeneratorDefect(Exception):
     pass
 
 
+class CaseTimeout(BaseException):
+    pass
+
+
 # ------------------------------------------------------------------ check base
 class Check:
     """One property.  Subclasses define:
@@ -284,6 +288,7 @@ class Check:
         self.active_matchers = []
         self.rng = random.Random(0)
         self.sample_budget = 6
+        self.slow = []
 
     # -- bookkeeping helpers used by judges
     def count(self, n=1):
@@ -331,7 +336,27 @@ class Check:
         pass
 
     # -- guarded judge: applies known-finding matchers, crash handling
+    case_timeout = 30
+
     def guarded(self, case):
+        def on_alarm(signum, frame):
+            raise CaseTimeout()
+        old = signal.signal(signal.SIGALRM, on_alarm)
+        signal.alarm(self.case_timeout)
+        try:
+            self._guarded(case)
+        except CaseTimeout:
+            # slowness is never a violation (DESIGN 3.4); restart the driver, remember the case
+            self.skip("case_timeout")
+            if len(self.slow) < 3:
+                self.slow.append(case)
+            if self.drv is not None:
+                self.drv.stop()
+        finally:
+            signal.alarm(0)
+            signal.signal(signal.SIGALRM, old)
+
+    def _guarded(self, case):
         try:
             self.judge(case)
         except DriverTimeout:
@@ -390,16 +415,35 @@ def _worker_main(args):
                           suppress_health_check=list(HealthCheck), report_multiple_bugs=False,
                           phases=[Phase.generate, Phase.shrink], print_blob=False)
             failing = [None]
+            fail_keys = {}
+            internal = [None]
+            shrink_calls = [0]
+            budget = chk.tiers[tier].get("shrink_calls", 250)
 
             @hseed(derive_seed(seed, chk.pid, worker))
             @settings(st)
             @given(strat)
             def test(case):
+                if internal[0] is not None:
+                    return
+                key = None
+                if failing[0] is not None:
+                    key = json.dumps(case, sort_keys=True, default=str)
+                    if key in fail_keys:
+                        raise fail_keys[key]
+                    shrink_calls[0] += 1
+                    if shrink_calls[0] > budget:
+                        return  # shrink budget exhausted: pretend the candidate passes
                 try:
                     chk.guarded(case)
                 except Violation as v:
                     failing[0] = (case, v)
+                    fail_keys[key or json.dumps(case, sort_keys=True, default=str)] = v
                     raise
+                except (KeyboardInterrupt, SystemExit):
+                    raise
+                except Exception:
+                    internal[0] = "while judging %s\n%s" % (json.dumps(case, default=str)[:3000], traceback.format_exc())
 
             try:
                 test()
@@ -410,6 +454,8 @@ def _worker_main(args):
                     viol = (failing[0][0], failing[0][1], True)
                 else:
                     raise
+            if internal[0] is not None:
+                res["error"] = internal[0]
         if viol is not None:
             res["violation"] = {"case": viol[0], "msg": viol[1].msg, "detail": viol[1].detail, "shrunk": viol[2]}
     except GeneratorDefect as e:
@@ -420,7 +466,7 @@ def _worker_main(args):
         if chk.drv is not None:
             chk.drv.stop()
     res.update(evals=chk.evals, nontrivial=sorted(chk.nontrivial), classes=chk.classes,
-               skipped=chk.skipped, excluded=chk.excluded, samples=chk.samples,
+               skipped=chk.skipped, excluded=chk.excluded, samples=chk.samples, slow=chk.slow,
                wall=time.time() - t0, restarts=(chk.drv.restarts if chk.drv else 0))
     return res
 
@@ -548,6 +594,9 @@ def main(check_cls, argv=None):
     for r in results:
         samples.extend(r["samples"][2:3])
     samples = samples[:12]
+    slow = []
+    for r in results:
+        slow.extend(r.get("slow", []))
     errors = [r["error"] for r in results if r["error"]]
     viols = [r["violation"] for r in results if r["violation"]]
     chk = check_cls()
@@ -555,6 +604,8 @@ def main(check_cls, argv=None):
            "samples": samples, "classes": dict(sorted(classes.items())), "skipped": skipped,
            "excluded_known": excluded, "workers": nworkers,
            "driver_restarts": sum(r["restarts"] for r in results)}
+    if slow:
+        cov["slow_cases"] = slow[:5]
     if check_cls.exhaustive:
         cov["exhaustive"] = True
     extra = {"builds_s": builds, "known_findings_active": [k for k, _ in active]}
